@@ -284,6 +284,8 @@ def check(prop: str, tier: str, only: str = "") -> int:
             for f in cf.as_completed(futs):
                 kind, c, r = f.result()
                 results.setdefault(c.name, {})[kind] = r
+                if kind == "cond" and os.environ.get("VERIF_PROGRESS", "1") == "1":
+                    print(f"  .. {c.name}: {r.get('state')} paths={r.get('num_paths')} t={r.get('wall_s')}s", file=sys.stderr, flush=True)
 
         # ---- verdicts
         summary = []
